@@ -219,6 +219,24 @@ async fn run(multi_thread: bool) {
                 }
                 None => json!({"ok": false, "kind": "harness", "err": "no such db"}),
             },
+            "rewrite" => match sessions.get(&name) {
+                Some(s) => {
+                    let db = s.db.clone();
+                    crate::planops::rewrite(&db, &cmd).await
+                }
+                None => json!({"ok": false, "kind": "harness", "err": "no such db"}),
+            },
+            "plancheck" => match sessions.get(&name) {
+                Some(s) => {
+                    let db = s.db.clone();
+                    crate::planops::plancheck(&db, &cmd).await
+                }
+                None => json!({"ok": false, "kind": "harness", "err": "no such db"}),
+            },
+            "rule_names" => match sessions.get(&name) {
+                Some(s) => crate::planops::rule_names(&s.db),
+                None => json!({"ok": false, "kind": "harness", "err": "no such db"}),
+            },
             "tick" => {
                 // let background tasks (compactor, vacuum) run: one virtual second per pass
                 let secs = cmd["secs"].as_u64().unwrap_or(1);
